@@ -23,6 +23,41 @@ def jsonable(x):
     return repr(x)
 
 
+def post_run(case, ctl, st, dag_cp, run_debug):
+    """the record of one controlled execution: its trace cut into scheduler runs, labels, monitors"""
+    trace = list(ctl.trace)
+    run = dict(status=st[0], value=jsonable(st[1]), choices=ctl.choices, broken=ctl.broken, segs=[], first_choices=ctl.first_choices, first_options=ctl.first_options, inline=ctl.inline_choices)
+    # split the full trace (with worker events) per execution for the monitors
+    full = []
+    curfull = None
+    for e in trace:
+        if e[0] == "BEGIN":
+            curfull = []
+            full.append(curfull)
+        elif curfull is not None:
+            curfull.append(e)
+    for si, seg in enumerate(sched_cases.segments(trace, ctl)):
+        dcfg, diffs = sched_cases.declared_cfg(case, seg["cfg"], dag_cp=dag_cp, run_debug=run_debug)
+        s = dict(cfg=dcfg, labels=None, end=None, unparsable=None, monitor=[], declared_diffs=diffs)
+        try:
+            labels, end = sched_cases.to_labels(seg["evs"])
+            s["labels"] = labels
+            s["end"] = end
+            s["monitor"] = sched_cases.monitors(dcfg, full[si] if si < len(full) else [], labels, end)
+            s["monitor"] += [(p_, m_) for ps_, m_ in diffs for p_ in ps_]
+        except sched_cases.Unparsable as u:
+            # the independent monitors do not need the model's labels: they still supply a concrete failing run
+            try:
+                s["monitor"] = sched_cases.monitors(dcfg, full[si] if si < len(full) else [], None, sched_cases.end_of(seg["evs"]))
+            except BaseException:  # noqa: BLE001
+                pass
+            s["monitor"] += [(p_, m_) for ps_, m_ in diffs for p_ in ps_]
+            s["unparsable"] = str(u)
+            s["raw"] = jsonable(seg["evs"])
+        run["segs"].append(s)
+    return run
+
+
 def run_case(case, sched_seed=None, choose=None, simultaneous=0.2, slow=None, inline=None):
     """build + run one case; -> record dict (JSON-able apart from transient fields)"""
     rec = dict(case=case, sched_seed=sched_seed, runs=[], build_error=None)
@@ -53,36 +88,7 @@ def run_case(case, sched_seed=None, choose=None, simultaneous=0.2, slow=None, in
         finally:
             tz.tawazi.cfg.TAWAZI_PROFILE_ALL_NODES = False
             tz.tawazi.cfg.RUN_DEBUG_NODES = False
-        trace = list(ctl.trace)
-        run = dict(status=st[0], value=jsonable(st[1]), choices=ctl.choices, broken=ctl.broken, segs=[], first_choices=ctl.first_choices, first_options=ctl.first_options, inline=ctl.inline_choices)
-        # split the full trace (with worker events) per execution for the monitors
-        full = []
-        curfull = None
-        for e in trace:
-            if e[0] == "BEGIN":
-                curfull = []
-                full.append(curfull)
-            elif curfull is not None:
-                curfull.append(e)
-        for si, seg in enumerate(sched_cases.segments(trace, ctl)):
-            dcfg, diffs = sched_cases.declared_cfg(case, seg["cfg"], dag_cp=dag_cp, run_debug=run_debug)
-            s = dict(cfg=dcfg, labels=None, end=None, unparsable=None, monitor=[], declared_diffs=diffs)
-            try:
-                labels, end = sched_cases.to_labels(seg["evs"])
-                s["labels"] = labels
-                s["end"] = end
-                s["monitor"] = sched_cases.monitors(dcfg, full[si] if si < len(full) else [], labels, end)
-                s["monitor"] += [(p_, m_) for ps_, m_ in diffs for p_ in ps_]
-            except sched_cases.Unparsable as u:
-                # the independent monitors do not need the model's labels: they still supply a concrete failing run
-                try:
-                    s["monitor"] = sched_cases.monitors(dcfg, full[si] if si < len(full) else [], None, sched_cases.end_of(seg["evs"]))
-                except BaseException:  # noqa: BLE001
-                    pass
-                s["monitor"] += [(p_, m_) for ps_, m_ in diffs for p_ in ps_]
-                s["unparsable"] = str(u)
-                s["raw"] = jsonable(seg["evs"])
-            run["segs"].append(s)
+        run = post_run(case, ctl, st, dag_cp, run_debug)
         rec["runs"].append(run)
         if st[0] != "ok":
             break
